@@ -190,6 +190,8 @@ def run(ctx):
             for ty in (0, 1):
                 b = tob(text)
                 rl.append("%d %d %d %s" % (fmt, ty, len(b), " ".join(map(str, b))))
+    ctx.stream("edgelist", gen.edgelist_lines(ctx.rng.fork("edgelist"), 3000 if q else 60000),
+               "edge-list reader vs. the documented grammar (Coq parser)", describe=lambda c: gen.EDGELIST_CODES.get(c, str(c)))
     ctx.stream("matutil", matutil_lines(ctx, mats), "matrix and submatrix utilities vs. their dense models",
                describe=lambda c: MCODES.get(c, str(c)), keyfn=mkeyfn)
     ctx.stream("textwrite", wl, "writers: print, parse by the documented grammar, read back", describe=lambda c: CODES.get(c, str(c)))
